@@ -49,27 +49,6 @@ func c06Size(rng *rand.Rand) int {
 	return rng.IntN(300)
 }
 
-func c06Prio(rng *rand.Rand) h2ref.Priority {
-	p := h2ref.Priority{Exclusive: rng.IntN(2) == 0, Weight: uint8(rng.Uint32())}
-	switch rng.IntN(5) {
-	case 0:
-		p.StreamDep = 0
-	case 1:
-		p.StreamDep = 1<<31 - 1
-	case 2:
-		p.StreamDep = 1 + rng.Uint32N(10)
-	default:
-		p.StreamDep = rng.Uint32N(1 << 31)
-	}
-	switch rng.IntN(6) {
-	case 0:
-		p.Weight = 0
-	case 1:
-		p.Weight = 255
-	}
-	return p
-}
-
 func c06wire(b []byte) (h2ref.Frame, []byte) {
 	fs, rest := h2ref.ParseAll(b)
 	if len(fs) != 1 || len(rest) != 0 {
@@ -154,7 +133,7 @@ func c06Gen(rng *rand.Rand, open uint32, last bool, size func(*rand.Rand) int) *
 		}
 		var rp *h2ref.Priority
 		if rng.IntN(2) == 0 {
-			q := c06Prio(rng)
+			q := vfrmPrio(rng)
 			p.Priority = PriorityParam{StreamDep: q.StreamDep, Exclusive: q.Exclusive, Weight: q.Weight}
 			if q != (h2ref.Priority{}) { // documented: "Priority, if non-zero, includes stream priority information"
 				rp = &q
@@ -185,7 +164,7 @@ func c06Gen(rng *rand.Rand, open uint32, last bool, size func(*rand.Rand) int) *
 			g.prio = true
 		}
 	case 6: // WritePriority
-		q := c06Prio(rng)
+		q := vfrmPrio(rng)
 		g.desc = fmt.Sprintf("WritePriority(%d,%+v)", sid, q)
 		g.write = func(fr *Framer) error {
 			return fr.WritePriority(sid, PriorityParam{StreamDep: q.StreamDep, Exclusive: q.Exclusive, Weight: q.Weight})
@@ -343,7 +322,7 @@ func c06Gen(rng *rand.Rand, open uint32, last bool, size func(*rand.Rand) int) *
 		case 1: // HEADERS, END_HEADERS, non-zero padding, priority
 			frag := vfrmFill(rng, size(rng))
 			padLen := rng.IntN(256)
-			q := c06Prio(rng)
+			q := vfrmPrio(rng)
 			w, _ := c06wire(h2ref.AppendHeaders(nil, sid, rng.IntN(2) == 0, true, frag, &q, padLen))
 			copy(w.Payload[len(w.Payload)-padLen:], vfrmFill(rng, padLen))
 			f = w
@@ -686,7 +665,7 @@ func TestVerif_C06(t *testing.T) {
 
 	t0 := time.Now()
 	lap := func(what string) { t.Logf("verif C06 timing: %s done at %.1fs", what, time.Since(t0).Seconds()) }
-	r.CasesParallel("sequences", r.N(12000, 600000), 0, func(c *verifrt.Case) {
+	r.CasesParallel("sequences", r.N(12000, 400000), 0, func(c *verifrt.Case) {
 		seq(c, 1+c.Rng.IntN(12), c06Size, 25)
 	})
 	lap("sequences")
@@ -719,7 +698,7 @@ func TestVerif_C06(t *testing.T) {
 				g.want = vfrmView{Kind: "HeadersFrame", Type: 1, Flags: h2ref.FlagEndHeaders, StreamID: sid, Length: uint32(n), Body: data}
 				var rp *h2ref.Priority
 				if withPrio {
-					q := c06Prio(c.Rng)
+					q := vfrmPrio(c.Rng)
 					q.Weight |= 1 // non-zero
 					rp = &q
 					p.Priority = PriorityParam{StreamDep: q.StreamDep, Exclusive: q.Exclusive, Weight: q.Weight}
